@@ -60,6 +60,11 @@ CHECKS = {
         ref='DESIGN.md §4 C10', note=SERVER_NOTE),
  'C04': client('C04', 'Replies are matched to requests by id for every ordering, grouping, duplication and pollution of the reply stream; ids unique; Batch order.', 'DESIGN.md §4 C04'),
  'C05': client('C05', 'Every operation completes exactly once under reply / context end / Close / EOF / Recv error / Send error / undecodable input; hooks exactly once; nothing transmitted after stop.', 'DESIGN.md §4 C05'),
+ 'C20': dict(technique='TLA+ model checking (LoopImpl, TLC exhaustive, plus a must-fail F10 variant) + model-based replay of TLC behaviours into the real server.Loop with harness accepter/services/connections under gate control + TLC trace validation against LoopContract',
+        category='model_checking',
+        text='server.Loop: fresh service and exactly one Finish per connection with its own assigner and exit status, after its server has exited; Loop returns last with nil for a closing error and the accepter\'s error otherwise; context end stops every server; a failed Assigner gets no server, no Finish and a closed connection. '
+             'Design level: spec/LoopImpl.tla checked exhaustively for <= 3 connections (custom accepter) and 2 (NetAccepter-like). Code level: simulated behaviours and directed histories replayed into the real Loop inside a synctest bubble; traces validated against spec/LoopContract.tla.',
+        ref='DESIGN.md §4 C20', note=SERVER_NOTE),
  'C09': server('C09', 'Server push: Notify/Callback transmission, reply matching, late replies discarded, context end, stop.', 'DESIGN.md §4 C09'),
 }
 REASONS = {}
